@@ -197,6 +197,7 @@ class Context(object):
         self.cut_prefixes = []
         self.in_sub = 0
         self.assuming = 0
+        self.entry_oid = 0
         self.pc_ids = {}              # ast id -> index in pc (scope-aware: truncated together with pc)
         self.pc_kind = []             # parallel to pc
         self.lib_mode = 0             # >0 while a library-fact helper is assuming
